@@ -43,6 +43,14 @@ Proof. exact tonl_testonly_body_exempt. Qed.
 
 (* (4) identifiers that merely share a name with a @testonly item are never reported: a bare callee must
    resolve to a package-level function object that is annotated in its own package *)
+(* which nodes are candidates, exactly: a call whose callee identifier RESOLVES to an annotated package-level function
+   (TONL02), a call pkg.F of an annotated function (TONL02), a method call on a value whose defined type - through
+   aliases and one pointer - has that annotated method (TONL03), a composite literal / typed var spec / field,
+   parameter or result of an annotated type (TONL01, keyed by package and type for the once-per-file rule) *)
+Theorem C03_candidate_nodes :
+  forall fs n c, In c (tonl_cands fs n) <-> tonl_candidate fs n c.
+Proof. intros fs n c. exact (tonl_cands_spec fs n c). Qed.
+
 Theorem C03_name_sharing_never :
   forall fs n f rest,
     n_kind n = KCallExpr -> n_children n = f :: rest -> n_kind f = KIdent ->
@@ -87,6 +95,7 @@ Print Assumptions C03_file.
 Print Assumptions C03_first_unsuppressed_use.
 Print Assumptions C03_walk.
 Print Assumptions C03_testonly_body_exempt.
+Print Assumptions C03_candidate_nodes.
 Print Assumptions C03_name_sharing_never.
 Print Assumptions C03_func_index.
 Print Assumptions C03_type_index.
